@@ -59,7 +59,7 @@ def main(argv):
                 line = [l for l in r.stdout.splitlines() if l.startswith("VIOLATION")][:1]
                 print("%-28s %-4s %-13s tests=%s %.1fs %s" % (mid, prop, verdict, tests, time.time() - t0, line[0][:100] if line else ""))
                 if r.returncode == 2:
-                    print(r.stderr[-1500:])
+                    print(r.stderr[-700:])
                 with open(os.path.join(HERE, "mutant_results.jsonl"), "a") as f:
                     f.write(json.dumps({"mutant": mid, "property": prop, "tier": tier, "verdict": verdict, "tests": tests, "wall": round(time.time() - t0, 1)}) + "\n")
                 if r.returncode != 1:
